@@ -742,7 +742,7 @@ def run_check(tier, seed):
                                     err, fh = cl.opendir(nodeid)
                                     if err: raise FuseError('opendir -> %d' % err)
                                     fhs.append(fh)
-                            hist = run_history(cl, rng, dc, nodeid, fhs, ss, noise, plus_refs, max_reqs=(400 if not quick else (250 if len(dc.oracle) < 100 else 140)))
+                            hist = run_history(cl, rng, dc, nodeid, fhs, ss, noise, plus_refs, max_reqs=(400 if not quick else (250 if len(dc.oracle) < 100 else 100)))
                             evals += len(hist)
                             F = judge_history(dc, hist, ss, cfgdesc)
                             findings += F
